@@ -5,7 +5,7 @@ package gen
 // and logical operators, template blocks, functions), nesting depth <= 2.
 func ControlFlow(thorough bool, emit func(string)) {
 	atoms := []string{"x = x + 1", "y = 0", "x", "break", "continue", "return x", "x < 2 ? 1 : 2", "x || y", "x && y", "`a{x}`", "`{% if x {1} %}`", "2d1", "x < 2 ? 1, y ? 2", "[x, y][0]"}
-	small := []string{"x = x + 1", "break", "continue", "return x", "x", "`{% if x < 2 { continue } %}`"}
+	small := []string{"x = x + 1", "break", "continue", "return x", "x", "`{% if x < 2 { continue } %}`", "`{% break %}`", "`a{ continue }b`"}
 	conds := []string{"x < 3", "0", "1"}
 	var bodies []string
 	for _, a := range small {
